@@ -126,7 +126,7 @@ def deriv(var: str, e: Expr, ctx: Context) -> Expr:
                 return normal(-(rec(x) / expr.sqrt(Const(1) - (x ^ Const(2)))))
             elif e.func_name == "acot":
                 x, = e.args
-                return normal(-rec(x)) / (Const(1) + x ^ Const(2))
+                return normal(-rec(x)) / (Const(1) + (x ^ Const(2)))
             elif e.func_name == "binom":
                 # Arguments should be integers
                 assert not e.contains_var(var), "deriv: binom applied to real variables"
